@@ -141,10 +141,14 @@ func graphRequests(n int) [][]string {
 	return out
 }
 
+// every (graph, request) is run in graphVariants shapes: plain; every task shadowed by a
+// global variable of the same name; task 0 first defined with an empty body and defined again.
+const graphVariants = 3
+
 func graphEnumTotal() uint64 {
 	var total uint64
 	for n := 1; n <= graphEnumN(); n++ {
-		total += (uint64(1) << (n * n)) * uint64(len(graphRequests(n)))
+		total += (uint64(1) << (n * n)) * uint64(len(graphRequests(n))) * graphVariants
 	}
 	return total
 }
@@ -152,14 +156,24 @@ func graphEnumTotal() uint64 {
 func graphEnumCase(idx uint64) GraphCase {
 	for n := 1; n <= graphEnumN(); n++ {
 		reqs := graphRequests(n)
-		cnt := (uint64(1) << (n * n)) * uint64(len(reqs))
+		cnt := (uint64(1) << (n * n)) * uint64(len(reqs)) * graphVariants
 		if idx >= cnt {
 			idx -= cnt
 			continue
 		}
+		variant := idx % graphVariants
+		idx /= graphVariants
 		mask := idx / uint64(len(reqs))
 		req := reqs[idx%uint64(len(reqs))]
 		c := GraphCase{N: n, Request: req, Reps: 3}
+		switch variant {
+		case 1:
+			for i := 0; i < n; i++ {
+				c.VarLike = append(c.VarLike, i)
+			}
+		case 2:
+			c.Empty, c.Dup = []int{0}, []int{0}
+		}
 		for i := 0; i < n; i++ {
 			for j := 0; j < n; j++ {
 				if mask&(1<<(i*n+j)) != 0 {
@@ -235,6 +249,8 @@ func genGraph(t *rapid.T) GraphCase {
 	c.FileDep = pick("filedep", 5)
 	c.Fail = pick("fail", 2)
 	c.TwoCmds = pick("twocmds", 5)
+	c.Empty = pick("empty", 3)
+	c.VarLike = pick("varlike", 3)
 	perm := rapid.Permutation(graphNames[:n]).Draw(t, "order")
 	k := rapid.IntRange(1, 3).Draw(t, "nreq")
 	c.Request = append([]string(nil), perm[:k]...)
@@ -286,19 +302,22 @@ func TestGlobEnum(t *testing.T) {
 			}
 		}
 		s.Progress(idx, nil)
-		s.EvalN(int64(len(c.Patterns)))
+		s.EvalN(2 * int64(len(c.Patterns)))
 		s.Class("trees")
 		if idx%257 == 0 {
 			s.Sample(map[string]any{"tree": c.Paths, "patterns": len(c.Patterns)})
 		}
-		if f := execGlob(s, root, c); f != nil {
-			if s.IsKnown(f.Sig) {
-				s.Known(f.Sig, c)
-				continue
-			}
-			if !seen[f.Sig] {
-				seen[f.Sig] = true
-				s.Violation("glob", f.Sig, f.Msg, f.Size, c)
+		for _, via := range []bool{false, true} {
+			c.ViaChain = via
+			if f := execGlob(s, root, c); f != nil {
+				if s.IsKnown(f.Sig) {
+					s.Known(f.Sig, c)
+					continue
+				}
+				if !seen[f.Sig] {
+					seen[f.Sig] = true
+					s.Violation("glob", f.Sig, f.Msg, f.Size, c)
+				}
 			}
 		}
 	}
@@ -350,6 +369,7 @@ func genGlobCase(t *rapid.T) GlobCase {
 			c.Paths = append(c.Paths, p)
 		}
 	}
+	c.ViaChain = rapid.Bool().Draw(t, "via_chain")
 	return c
 }
 
